@@ -92,10 +92,15 @@ class Ref:
         d = T.depth[e]
         outer = self.activation(e)
         end = outer[1] if outer else T.n
+        # BugStalker deliberately finishes the remainder of the call line when it comes back in the middle of
+        # it, so the bound is the first statement boundary of a line other than the line of the return address
+        call_line = self.line_of(T.pc[e])
         i = e
         while i < end:
-            if T.depth[i] == d and T.pc[i] in self.stmt:
-                return i, 'after-return'
+            if T.depth[i] == d:
+                rows = self.stmt.get(T.pc[i])
+                if rows and (i == e or call_line is None or any(l != 0 and (f, l) != call_line for f, l in rows)):
+                    return i, 'after-return'
             i += 1
         return None, 'none'
 
